@@ -78,10 +78,14 @@ def _get_fns():
   dts = {"int8": jnp.int8, "int16": jnp.int16, "bfloat16": jnp.bfloat16, "float32": jnp.float32}
   cache = {}
 
-  def rt(t, dt, ed):
-    qv = QuantizedValue.from_float_value(t, dts[dt], ed)
+  # the same target type in the spellings callers use: the jnp scalar type, a numpy dtype instance, and - as
+  # the optimizer itself does when it re-quantizes a preconditioner - the dtype of an existing payload
+  dts_np = {"int8": np.dtype("int8"), "int16": np.dtype("int16")}
+
+  def rt(t, dt, ed, np_form=False):
+    qv = QuantizedValue.from_float_value(t, dts_np.get(dt, dts[dt]) if np_form else dts[dt], ed)
     f = qv.to_float()
-    qv2 = QuantizedValue.from_float_value(f, dts[dt], ed)
+    qv2 = QuantizedValue.from_float_value(f, qv.quantized.dtype if dt in dts_np else dts[dt], ed)
     return qv.quantized, qv.bucket_size, qv.diagonal, f, qv2.quantized
 
   def run(t, dt, ed, jit):
@@ -92,7 +96,7 @@ def _get_fns():
         cache[key] = jax.jit(lambda v, _dt=dt, _ed=ed: rt(v, _dt, _ed))
       out = cache[key](t)
     else:
-      out = rt(t, dt, ed)
+      out = rt(t, dt, ed, np_form=True)
     q, b, d, f, q2 = out
     return (np.asarray(q), np.asarray(b), (np.asarray(d) if not isinstance(d, list) else None),
             np.asarray(f), np.asarray(q2))
